@@ -89,6 +89,28 @@ def gen_consts(rng):
                 lit = "(-2147483647 - 1)"
         else:
             lit = v
+        if isinstance(v, int) and c != "_Bool" and rng.random() < 0.5:
+            # initialiser expressions instead of plain literals: the value is what the C compiler stores after the usual conversions
+            # (unary operators on unsigned 32-bit literals stored into 64-bit variables, casts, arithmetic); C prints the variable
+            from .. import gen_macros
+            form = rng.random()
+            try:
+                if form < 0.3:
+                    # a 32-bit unsigned operand under a unary operator, stored into a 64-bit variable: the operator acts in 32 bits
+                    c = rng.choice(["long", "unsigned long long", "unsigned long", "long long"])
+                    mag = rng.choice([0, 1, 2, 127, 0x7fffffff, 0x80000000, 0xffffffff, rng.randrange(1 << 32)])
+                    body = rng.choice(["%dU" % mag, "0x%xU" % mag, "0x%x" % (mag | 0x80000000), "%du" % mag])
+                    lit = rng.choice(["%s%s", "%s%s", "%s(%s)", "(%s%s)"]) % (rng.choice(["-", "~"]), body)
+                elif form < 0.6:
+                    l_ = gen_macros.literal(rng)
+                    op = rng.choice(["-", "~", "!", "+", "-", "~"])
+                    lit = rng.choice(["%s%s", "%s(%s)", "(%s%s)"]) % (op, l_.text)
+                    if op == "-" and l_.ty in ("int", "long") and l_.val == 0:
+                        lit = "-1U"
+                else:
+                    lit = gen_macros.expr(rng, rng.randint(1, 3), []).text
+            except gen_macros.UB:
+                lit = rng.choice(["~0U", "-1U", "-0x80000000", "~0x7fU", "-(1U)", "(~0U)", "~0UL", "-2147483648"])
         out.append("%s %s CV%d = %s;" % (q, c, i, lit))
         info.append(("CV%d" % i, c, kind))
     if rng.random() < 0.5:
